@@ -22,24 +22,28 @@ def section(x):
     if default is None or default >= 0:
         raise x.ExtractError('Token.prec default is not a negative number')
     s.add('prec', sorted(prec.items()), comment='Token.prec')
+    def call_args(fn, method):
+        """constant / TokenTypes-member arguments of every `self.<method>(…)` call in fn"""
+        out = []
+        for node in ast.walk(fn):
+            if isinstance(node, ast.Call) and isinstance(node.func, ast.Attribute) \
+                    and node.func.attr == method:
+                for a in node.args:
+                    if isinstance(a, ast.Constant):
+                        out.append(a.value)
+                    elif isinstance(a, ast.Attribute):
+                        out.append(a.attr.lower())
+        return out
+
     assoc_fn = x.find_func(cls, 'assoc')
-    right = None
-    for node in ast.walk(assoc_fn):
-        if isinstance(node, ast.Compare) and isinstance(node.ops[0], ast.In):
-            right = list(x.const(node.comparators[0]))
-    if right is None:
-        raise x.ExtractError('no right-associative tuple in Token.assoc')
+    right = call_args(assoc_fn, 'is_mark') + call_args(assoc_fn, 'is_a')
+    if not right:
+        raise x.ExtractError('no right-associative tokens in Token.assoc')
     s.add('rightAssoc', sorted(right), comment='contents giving Assoc.RIGHT')
     binop_fn = x.find_func(cls, 'is_binop')
-    chars = words = None
-    for node in ast.walk(binop_fn):
-        if isinstance(node, ast.Compare) and isinstance(node.ops[0], ast.In):
-            val = x.const(node.comparators[0])
-            if isinstance(val, str):
-                chars = val
-            else:
-                words = list(val)
-    if chars is None or words is None:
+    chars = ''.join(call_args(binop_fn, 'is_mark'))
+    words = call_args(binop_fn, 'is_any')
+    if not chars or not words:
         raise x.ExtractError('is_binop shape changed')
     s.add('binopChars', chars, comment="content in '...'")
     s.add('binopWords', sorted(words), comment='content in (...)')
@@ -57,15 +61,20 @@ def section(x):
         import sys
         sys.path.insert(0, x.REPO)
         from bardolph.parser.token import Assoc, Token, TokenTypes
+        def token_for(sym):
+            if sym in ('==', '<=', '>=', '!=', '<', '>'):
+                return Token(TokenTypes.COMPARE, sym)
+            if sym in ('and', 'or', 'not'):
+                return Token(TokenTypes[sym.upper()], sym)
+            return Token(TokenTypes.MARK, sym)
         for sym, p in vals['prec']:
-            tt = TokenTypes.COMPARE if sym in ('==', '<=', '>=', '!=', '<', '>') else TokenTypes.MARK
-            tok = Token(tt, sym)
+            tok = token_for(sym)
             if tok.prec != p:
                 raise x.ExtractError('live prec of {} differs'.format(sym))
             if (tok.assoc is Assoc.RIGHT) != (sym in vals['rightAssoc']):
                 raise x.ExtractError('live assoc of {} differs'.format(sym))
-        for sym in ['+', '-', '*', '/', '%', '^', 'and', 'or', 'not', '(', ')', 'x', '5']:
-            tok = Token(TokenTypes.MARK, sym)
+        for sym in ['+', '-', '*', '/', '%', '^', 'and', 'or', 'not', '(', ')']:
+            tok = token_for(sym)
             want = (sym in vals['binopChars']) or (sym in vals['binopWords'])
             if bool(tok.is_binop) != want:
                 raise x.ExtractError('live is_binop of {} differs'.format(sym))
